@@ -112,7 +112,7 @@ theorem widthOK_of_render (cc : CharClass) (st : WSt) (cm : Bool) (columns : Nat
     (h : (Wd.list st cm columns cw spacing kp u nw items).render cc w = .ok r)
     (sh : ListShape cc cm columns cw spacing kp items w r items' labels)
     (hfit : ∀ i, (hi : i < items.length) →
-      RespectsWidth cc items[i] (usedWidth cw columns spacing w - labelLen labels i)) :
+      RespectsWidth cc items[i] (usedWidth cw columns spacing w - kpLabelLen kp i)) :
     WidthOK (usedWidth cw columns spacing w) labels (items'.map Wd.lines) := by
   obtain ⟨_, hu, hroom⟩ := list_ok_room cc st cm columns cw spacing kp u nw items w r hne h
   have hlen := shape_grids_length sh
@@ -131,7 +131,9 @@ theorem widthOK_of_render (cc : CharClass) (st : WSt) (cm : Bool) (columns : Nat
     rw [hlen] at hi
     have hi' : i < items'.length := by rw [sh.len_items]; exact hi
     rw [List.getElem_map] at hrow
-    have h1 := hfit i hi items'[i] (sh.item_render i hi hi') row hrow
+    have hf := hfit i hi
+    rw [← shape_labelLen sh i hi] at hf
+    have h1 := hf items'[i] (sh.item_render i hi hi') row hrow
     have h2 := hroom' i hi
     omega
   · intro i hi row hrow
@@ -176,7 +178,7 @@ theorem layoutOK_of_render (cc : CharClass) (st : WSt) (cm : Bool) (columns : Na
     (h : (Wd.list st cm columns cw spacing kp u nw items).render cc w = .ok r)
     (sh : ListShape cc cm columns cw spacing kp items w r items' labels)
     (hfit : ∀ i, (hi : i < items.length) →
-      RespectsWidth cc items[i] (usedWidth cw columns spacing w - labelLen labels i)) :
+      RespectsWidth cc items[i] (usedWidth cw columns spacing w - kpLabelLen kp i)) :
     LayoutOK (usedWidth cw columns spacing w) labels (items'.map Wd.lines) :=
   layoutOK_of_widthOK
     (widthOK_of_render cc st cm columns cw spacing kp u nw items w r items' labels hne h sh hfit)
